@@ -2,6 +2,7 @@ import Thanos.Common.Parse
 import Thanos.Model.CacheKeys
 import Thanos.Model.PostingsCodec
 import Thanos.Model.CachingBucket
+import Thanos.Model.IndexHeader
 /-
   Line-protocol driver of the `index` family (C11 C12 C13 C14 C16).
   One request per line, one answer per line; every line is self-contained.
@@ -41,6 +42,17 @@ import Thanos.Model.CachingBucket
     answer: one item per op, joined by ';':
         <bytes hex | panic | err>/<A if the wrapped bucket's Attributes was called, else ->/
         <GetRange calls on the wrapped bucket: start+len,…>/<stored subrange keys: start-end,…>
+
+  C11 (binary index-header) — grammar
+    ih.q <n> <nextOff> <tbl> <wanted> [ignored tokens: how the harness rebuilds the index]
+        n       = postingOffsetsInMemSampling
+        tbl     = <rank>:<offset>(,<rank>:<offset>)*   the postings offset table of one label name
+                  (label values replaced by their ranks among all strings of the case)
+        nextOff = where the posting list after the last one of this name starts (first posting
+                  of the next name, or the end of the postings section)
+        wanted  = "-" | <rank>(,<rank>)*               the requested values, sorted
+      -> s=<kept table indices> l=<lastValOffset> v=<LabelValues as ranks> r=<range>(,<range>)*
+         range = <start>:<end> | nf ;  r=err on an error
 -/
 open Thanos Thanos.Parse
 
@@ -302,12 +314,46 @@ def handleC14 : List String → Option String
   | _ => none
 end C14
 
+/-! ### C11 -/
+section C11
+open Thanos.IndexHeader
+
+def parseTbl? (s : String) : Option (List (Nat × Nat)) :=
+  (listOf ',' s).mapM fun e =>
+    match splitChar ':' e with
+    | [a, b] => do
+      let a ← parseNat? a; let b ← parseNat? b
+      pure (a, b)
+    | _ => none
+
+def showRng (r : IndexHeader.Rng) : String := if r = notFound then "nf" else s!"{r.start}:{r.stop}"
+
+def handleC11 : List String → Option String
+  | "ih.q" :: n :: nextOff :: tbl :: wanted :: _ => do
+    let n ← parseNat? n
+    let nextOff ← parseNat? nextOff
+    let tbl ← parseTbl? tbl
+    let wanted ← parseNats? ',' wanted
+    if n = 0 then none else
+    let offs := sample n tbl
+    let lastVal : Int := (nextOff : Int) - 4
+    let lv := match labelValues offs tbl with
+      | .ok vs => showNats "," vs
+      | .error _ => "err"
+    let r := match lookup offs tbl lastVal wanted with
+      | .ok rs => joinWith "," (rs.map showRng)
+      | .error _ => "err"
+    pure s!"s={showNats "," (offs.map (·.2))} l={lastVal} v={lv} r={r}"
+  | _ => none
+end C11
+
 def handle (toks : List String) : String :=
   match toks with
   | [] => "bad-op"
   | t :: _ =>
     let r := if t.startsWith "pc." then handleC12 toks
-             else if t.startsWith "cb." then handleC14 toks else handleC13 toks
+             else if t.startsWith "cb." then handleC14 toks
+             else if t.startsWith "ih." then handleC11 toks else handleC13 toks
     match r with
     | some r => r
     | none => "bad-op"
